@@ -116,6 +116,15 @@ def tobytes_as_a_cache_key(np, d):
 
 
 @case
+def elementwise_comparisons_and_reductions(np, d):
+    v, w = np.array(d["v4"]), np.array(d["v4"])
+    w[1] = w[1] + 2.0
+    return (bool(np.all(np.abs(v) < 1e6)), bool(np.all(np.abs(v) < 0.1)), bool((v > 0).any()), bool((v <= w).all()), bool((v == w).all()),
+            bool(np.any(v != w)), bool(np.any(~(v < w))), np.max(v), np.min(v), v.max(), np.max(np.abs(v)), bool(np.max(v) > 0.0),
+            bool(np.all((v < w) | (v == w))), bool(np.all((v <= w) & (w >= v))))
+
+
+@case
 def dot_variants(np, d):
     A, B, v, w = np.array(d["m33"]), np.array(d["m34"]), np.array(d["v3"]), np.array(d["v4"])
     return np.dot(A, B), np.dot(v, A), np.dot(A, v), np.dot(v, v), np.dot(np.dot(np.transpose(v), A), v), np.dot(np.transpose(B), A), A @ B
